@@ -10,6 +10,7 @@ import (
 	"go/types"
 	"math"
 	"math/big"
+	"os"
 	"sort"
 	"strings"
 	"sync"
@@ -123,6 +124,7 @@ type Engine struct {
 	readLog     []string
 	handles     map[int]*fileHandle
 	tier        string
+	fixedCases  map[string]int
 	feasTimeout int
 	feasCalls   int
 	feasMs      int64
@@ -190,6 +192,7 @@ func (e *Engine) oblige(st *State, kind, label, site string, goal *Term) {
 // by the rest of the path condition whenever all obligations hold, so reach
 // witnesses may ignore them.
 var assumedGoals = map[int]bool{}
+var showBranches = os.Getenv("GOSYM_SHOW_BRANCHES") != ""
 
 // weakenAssumed replaces assumed goals by true inside and/or structure.
 func weakenAssumed(t *Term) *Term {
@@ -229,28 +232,62 @@ func (st *State) assumeProved(c *Term) {
 	}
 }
 
-// implied: +1 when c is syntactically in the path condition, -1 when its negation is.
+// implied: +1 when c follows syntactically from the path condition, -1 when
+// its negation does (atoms of the path condition, one level of and/or).
 func (st *State) implied(c *Term) int {
-	nc := Not(c)
+	facts := map[int]bool{}
 	for _, p := range st.pc {
-		if p == c {
-			return 1
-		}
-		if p == nc {
-			return -1
-		}
+		facts[p.ID] = true
 		if p.Op == OpAnd {
 			for _, q := range p.Args {
-				if q == c {
-					return 1
-				}
-				if q == nc {
-					return -1
-				}
+				facts[q.ID] = true
 			}
 		}
 	}
-	return 0
+	var ev func(t *Term, depth int) int
+	ev = func(t *Term, depth int) int {
+		if facts[t.ID] {
+			return 1
+		}
+		if facts[Not(t).ID] {
+			return -1
+		}
+		if depth > 2 {
+			return 0
+		}
+		switch t.Op {
+		case OpNot:
+			return -ev(t.Args[0], depth+1)
+		case OpAnd:
+			all := true
+			for _, a := range t.Args {
+				switch ev(a, depth+1) {
+				case -1:
+					return -1
+				case 0:
+					all = false
+				}
+			}
+			if all {
+				return 1
+			}
+		case OpOr:
+			all := true
+			for _, a := range t.Args {
+				switch ev(a, depth+1) {
+				case 1:
+					return 1
+				case 0:
+					all = false
+				}
+			}
+			if all {
+				return -1
+			}
+		}
+		return 0
+	}
+	return ev(c, 0)
 }
 
 // runSide explores one side of a symbolic branch. When the side runs into code
@@ -728,6 +765,9 @@ func (e *Engine) runUntil(st *State, m marker) []*State {
 					return append(done, st)
 				}
 				continue
+			}
+			if showBranches {
+				fmt.Printf("BRANCH %s :: %s\n", e.site(ins), cond.Short())
 			}
 			var arrived []*State
 			sides := []struct {
